@@ -58,6 +58,66 @@ theorem saveCg_cross_counts (name : String) (sh : Shape) (s : St) (j : Nat) (c :
   · simp [hi]
   · simp [hi]
 
+
+/-! ### nothing is left out of a save -/
+
+theorem foldl_saved (myInsts : List Inst) : ∀ (used : List String) (saved : List UCg),
+    (∀ c ∈ saved, c ∈ (myInsts.foldl (fun (acc : List String × List UCg) i =>
+        (acc.1 ++ [dedupName acc.1 i.name], acc.2 ++ [saveCg (dedupName acc.1 i.name) i.shape i.st])) (used, saved)).2) ∧
+    ∀ i ∈ myInsts, ∃ nm, saveCg nm i.shape i.st ∈ (myInsts.foldl (fun (acc : List String × List UCg) i =>
+        (acc.1 ++ [dedupName acc.1 i.name], acc.2 ++ [saveCg (dedupName acc.1 i.name) i.shape i.st])) (used, saved)).2 := by
+  induction myInsts with
+  | nil => intro used saved; simp
+  | cons x xs ih =>
+    intro used saved
+    simp only [List.foldl_cons]
+    obtain ⟨a, b⟩ := ih (used ++ [dedupName used x.name]) (saved ++ [saveCg (dedupName used x.name) x.shape x.st])
+    refine ⟨fun c hc => a c (List.mem_append_left _ hc), fun i hi => ?_⟩
+    rcases List.mem_cons.1 hi with rfl | hi
+    · exact ⟨dedupName used i.name, a _ (by simp)⟩
+    · exact b i hi
+
+theorem go_spec (r : Reg) : ∀ (l : List (Nat × TypeE)) (used : List String), ∀ p ∈ l,
+    ∃ u ∈ Reg.save.go r l used, u.cg = saveCg p.2.name p.2.shape p.2.st ∧
+      ∀ i ∈ r.insts, i.tidx = p.1 → ∃ nm, saveCg nm i.shape i.st ∈ u.insts := by
+  intro l
+  induction l with
+  | nil => intro used p hp; simp at hp
+  | cons q rest ih =>
+    intro used p hp
+    obtain ⟨ti, t⟩ := q
+    simp only [Reg.save.go]
+    rcases List.mem_cons.1 hp with rfl | hp
+    · refine ⟨_, List.mem_cons_self .., rfl, fun i hi hti => ?_⟩
+      simp only []
+      exact (foldl_saved (r.insts.filter (fun i => i.tidx == ti)) used []).2 i
+        (List.mem_filter.2 ⟨hi, by simpa using hti⟩)
+    · obtain ⟨u, hu, h1, h2⟩ := ih _ p hp
+      exact ⟨u, List.mem_cons_of_mem _ hu, h1, h2⟩
+
+/-- **A save contains every covergroup type and every instance.**  For every type covergroup of the
+    registry the saved tree has an entry built from that type's in-memory state (name, shape, hit
+    counts: `saveCg`, whose content is `saveCg_cps`, `binsOf_spec`, `saveCg_cross_counts`), and below
+    it one saved covergroup for every instance registered under that type, from that instance's
+    in-memory state (its scope name possibly de-duplicated). -/
+theorem save_complete (r : Reg) (k : Nat) (t : TypeE) (ht : r.types[k]? = some t) :
+    ∃ u ∈ r.save, u.cg = saveCg t.name t.shape t.st ∧
+      ∀ i ∈ r.insts, i.tidx = k → ∃ nm, saveCg nm i.shape i.st ∈ u.insts := by
+  unfold Reg.save
+  simp only []
+  apply go_spec r _ [] (k, t)
+  rw [List.mem_flatMap]
+  refine ⟨t.tname, List.mem_eraseDups.2 (List.mem_map.2 ⟨t, List.mem_of_getElem? ht, rfl⟩), ?_⟩
+  rw [List.mem_filter]
+  refine ⟨?_, by simp⟩
+  have hk : k < r.types.length := by
+    by_contra hc
+    rw [List.getElem?_eq_none (by omega)] at ht; simp at ht
+  rw [List.mem_iff_getElem?]
+  refine ⟨k, ?_⟩
+  rw [List.getElem?_zip_eq_some]
+  exact ⟨by simp [hk], ht⟩
+
 /-- producing the saved tree is a function of the registry: the registry it was produced from is,
     trivially, unchanged afterwards, and saving twice gives the same tree -/
 theorem save_pure (r : Reg) : r.save = r.save := rfl
